@@ -638,4 +638,183 @@ theorem inRecs_face_le_one {l : List InRec} (h : (l.map (·.face)).Nodup) (g : F
       simp [this]
     · exact ih h.2
 
+/-! ### strategies: what exactly is sent -/
+
+def fwdSend (i : Interest) (hop : Option Nat) (tok : Nat) (g : FaceId) : Send := .interest g i.name hop (.mine tok)
+
+theorem bestRoute_eq (s : St) (tok i nonce hop inFace) (l : List (FaceId × Nat)) :
+    (bestRoute s tok i nonce hop inFace l).2 =
+      match l.find? (fun nh => usableOut s.faces inFace i.name hop nh.1) with
+      | some nh => [fwdSend i hop tok nh.1]
+      | none => [] := by
+  induction l with
+  | nil => rfl
+  | cons nh t ih =>
+    unfold bestRoute
+    by_cases hu : usableOut s.faces inFace i.name hop nh.1 = true
+    · simp only [hu, if_true, List.find?_cons_of_pos]
+      rw [outInterest_sends]; simp [hu, fwdSend]
+    · simp only [hu]
+      rw [List.find?_cons_of_neg (by simpa using hu)]
+      simpa using ih
+
+theorem multicast_eq (s : St) (tok i nonce hop inFace) (l : List (FaceId × Nat)) :
+    (multicast s tok i nonce hop inFace l).2 =
+      (l.filter fun nh => usableOut s.faces inFace i.name hop nh.1).map fun nh => fwdSend i hop tok nh.1 := by
+  induction l generalizing s with
+  | nil => rfl
+  | cons nh t ih =>
+    simp only [multicast]
+    rw [ih, outInterest_faces, outInterest_sends]
+    by_cases hu : usableOut s.faces inFace i.name hop nh.1 = true
+    · simp [hu, fwdSend]
+    · simp [hu]
+
+theorem nhLe_cost {tie : List FaceId} {a b : FaceId × Nat} (h : nhLe tie a b = true) : a.2 ≤ b.2 := by
+  unfold nhLe at h
+  simp only [Bool.or_eq_true, decide_eq_true_eq, Bool.and_eq_true, beq_iff_eq] at h
+  omega
+
+theorem not_nhLe_cost {tie : List FaceId} {a b : FaceId × Nat} (h : ¬nhLe tie a b = true) : b.2 ≤ a.2 := by
+  unfold nhLe at h
+  simp only [Bool.or_eq_true, decide_eq_true_eq, Bool.and_eq_true, beq_iff_eq, not_or, not_and] at h
+  omega
+
+theorem mem_insertNh {tie : List FaceId} {a x : FaceId × Nat} {l : List (FaceId × Nat)} :
+    x ∈ insertNh tie a l ↔ x = a ∨ x ∈ l := by
+  induction l with
+  | nil => simp [insertNh]
+  | cons b t ih =>
+    unfold insertNh
+    split
+    · simp
+    · simp only [List.mem_cons, ih]
+      constructor
+      · rintro (h | h | h) <;> simp [h]
+      · rintro (h | h | h) <;> simp [h]
+
+theorem mem_sortNh {tie : List FaceId} {x : FaceId × Nat} {l : List (FaceId × Nat)} : x ∈ sortNh tie l ↔ x ∈ l := by
+  unfold sortNh
+  induction l with
+  | nil => simp
+  | cons a t ih => simp only [List.foldr_cons, mem_insertNh, ih, List.mem_cons]
+
+theorem sorted_insertNh {tie : List FaceId} (a : FaceId × Nat) {l : List (FaceId × Nat)}
+    (h : l.Pairwise fun x y => x.2 ≤ y.2) : (insertNh tie a l).Pairwise fun x y => x.2 ≤ y.2 := by
+  induction l with
+  | nil => simp [insertNh]
+  | cons b t ih =>
+    unfold insertNh
+    rw [List.pairwise_cons] at h
+    split
+    · rename_i hle
+      rw [List.pairwise_cons]
+      refine ⟨?_, List.pairwise_cons.mpr h⟩
+      intro y hy
+      simp only [List.mem_cons] at hy
+      rcases hy with rfl | hy
+      · exact nhLe_cost hle
+      · exact Nat.le_trans (nhLe_cost hle) (h.1 y hy)
+    · rename_i hle
+      rw [List.pairwise_cons]
+      refine ⟨?_, ih h.2⟩
+      intro y hy
+      rcases mem_insertNh.mp hy with rfl | hy
+      · exact not_nhLe_cost hle
+      · exact h.1 y hy
+
+theorem sorted_sortNh (tie : List FaceId) (l : List (FaceId × Nat)) : (sortNh tie l).Pairwise fun x y => x.2 ≤ y.2 := by
+  unfold sortNh
+  induction l with
+  | nil => simp
+  | cons a t ih => simp only [List.foldr_cons]; exact sorted_insertNh a ih
+
+theorem find_first_le {l : List (FaceId × Nat)} {p : FaceId × Nat → Bool} (hs : l.Pairwise fun x y => x.2 ≤ y.2)
+    {x y : FaceId × Nat} (hx : l.find? p = some x) (hy : y ∈ l) (hpy : p y = true) : x.2 ≤ y.2 := by
+  induction l with
+  | nil => simp at hy
+  | cons a t ih =>
+    rw [List.pairwise_cons] at hs
+    by_cases hpa : p a = true
+    · rw [List.find?_cons_of_pos hpa] at hx
+      simp at hx; subst hx
+      simp only [List.mem_cons] at hy
+      rcases hy with rfl | hy
+      · exact Nat.le_refl _
+      · exact hs.1 y hy
+    · rw [List.find?_cons_of_neg (by simpa using hpa)] at hx
+      simp only [List.mem_cons] at hy
+      rcases hy with rfl | hy
+      · exact absurd hpy hpa
+      · exact ih hs.2 hx hy
+
+/-! ### the strategy stage -/
+
+theorem getEntry_modifyEntry {pit : List Entry} {tok : Nat} {e : Entry} (g : Entry → Entry)
+    (hg : ∀ x, (g x).token = x.token) (h : getEntry pit tok = some e) :
+    getEntry (modifyEntry pit tok g) tok = some (g e) := by
+  unfold getEntry modifyEntry at *
+  induction pit with
+  | nil => simp at h
+  | cons x t ih =>
+    simp only [List.map_cons]
+    by_cases hx : (x.token == tok) = true
+    · simp only [List.find?_cons, hx] at h
+      simp at h; subst h
+      simp only [hx, if_true, List.find?_cons, hg]
+    · have hx' : (x.token == tok) = false := by simpa using hx
+      simp only [List.find?_cons, hx'] at h
+      simp only [hx', Bool.false_eq_true, if_false, List.find?_cons]
+      exact ih h
+
+theorem getEntry_of_mem {pit : List Entry} (hnd : (pit.map (·.token)).Nodup) {e : Entry} (he : e ∈ pit) :
+    getEntry pit e.token = some e := by
+  unfold getEntry
+  cases hf : pit.find? (·.token == e.token) with
+  | none =>
+    have := List.find?_eq_none.mp hf e he
+    simp at this
+  | some e0 =>
+    have h1 := List.mem_of_find?_eq_some hf
+    have h2 : e0.token = e.token := by simpa using List.find?_some hf
+    rw [eq_of_token_eq hnd h1 he h2]
+
+/-- the next hops offered to the strategy: FIB longest-prefix match minus the faces that hold an
+    in-record of the entry (the arrival face stays) -/
+def allowedNhs (s : St) (i : Interest) (e : Entry) (inFace : FaceId) : List (FaceId × Nat) :=
+  (lpmNextHops s.fib (lookupName s.regions i)).filter fun nh => !(e.inRecs.any (·.face == nh.1)) || nh.1 == inFace
+
+/-- what forwardInterest sends when no NextHopFaceId is given -/
+theorem forwardInterest_eq (s : St) (tok : Nat) (i : Interest) (nonce : Nat) (hop : Option Nat) (inFace : FaceId)
+    (tie : List FaceId) (e : Entry) (he : getEntry s.pit tok = some e) (hn : i.nextHop = none) :
+    (forwardInterest s tok i nonce hop inFace tie).2 =
+      if suppressed s.now e nonce then []
+      else match lpmStrat s.strat i.name with
+        | .best => match (sortNh tie (allowedNhs s i e inFace)).find? (fun nh => usableOut s.faces inFace i.name hop nh.1) with
+            | some nh => [fwdSend i hop tok nh.1]
+            | none => []
+        | .multi => ((allowedNhs s i e inFace).filter fun nh => usableOut s.faces inFace i.name hop nh.1).map
+            fun nh => fwdSend i hop tok nh.1 := by
+  unfold forwardInterest
+  simp only [hn]
+  have he1 := getEntry_modifyEntry (Entry.updateExp s.now) (fun _ => rfl) he
+  simp only [he1]
+  have hsup : suppressed s.now (Entry.updateExp s.now e) nonce = suppressed s.now e nonce := rfl
+  have hall : (List.filter (fun nh => !(Entry.updateExp s.now e).inRecs.any (fun x => x.face == nh.1) || nh.1 == inFace)
+      (lpmNextHops s.fib (lookupName s.regions i))) = allowedNhs s i e inFace := rfl
+  rw [hall, hsup]
+  by_cases hempty : (allowedNhs s i e inFace).isEmpty = true
+  · have : allowedNhs s i e inFace = [] := by simpa using hempty
+    simp only [this]
+    by_cases hs : suppressed s.now e nonce = true
+    · simp [hs]
+    · cases lpmStrat s.strat i.name <;> simp [hs, sortNh]
+  · simp only [hempty]
+    by_cases hs : suppressed s.now e nonce = true
+    · simp [hs]
+    · simp only [hs, Bool.false_eq_true, if_false]
+      cases lpmStrat s.strat i.name with
+      | best => simp only []; rw [bestRoute_eq]
+      | multi => simp only []; rw [multicast_eq]
+
 end Ndn.Fw
